@@ -58,11 +58,19 @@ func (t *vticker) Chan() <-chan time.Time {
 	return ch
 }
 
+// after the first synchronisation failure later waits are short: every case would fail the same way
+var syncFailed bool
+
 // waitChan waits (bounded, real time) until Chan() has been evaluated at least n times.
 func (c *vclock) waitChan(n int64) bool {
-	deadline := time.Now().Add(5 * time.Second)
+	limit := 3 * time.Second
+	if syncFailed {
+		limit = 20 * time.Millisecond
+	}
+	deadline := time.Now().Add(limit)
 	for i := 0; c.chanCalls.Load() < n; i++ {
 		if time.Now().After(deadline) {
+			syncFailed = true
 			return false
 		}
 		if i < 2000 {
